@@ -16,6 +16,10 @@ structure Ent where
   blk : Nat
 
 structure DS where
+  /-- wrapper mode: ops go through the host functions `ext_allocator_malloc/free_version_1` on a real
+      wazero memory; an allocator error is the observable `p-<class>` (panic); the allocator's
+      private state is not visible, the final summary is the page count only -/
+  w : Bool
   hb : Nat
   r : Run hashStore
   allocs : Array Nat
@@ -81,20 +85,28 @@ def opStep (d : DS) (op : String) : DS :=
     match n.toNat? with
     | none => emit d "bad-op"
     | some n =>
-      match d.r.step (.alloc n) with
+      match (if d.w then (match hostMalloc d.r n with
+                          | (r', .val p) => (r', Out.ptr p)
+                          | (r', .panic e) => (r', Out.err e)
+                          | (r', .unit) => (r', Out.ok))
+             else d.r.step (.alloc n)) with
       | (r', .ptr p) =>
         let k := d.allocs.size
         let blk := blockOf n
         let r'' := (markOffs blk).foldl (fun r off => (r.step (.poke ((p + off) % U32) (pat k off))).1) r'
         emit { d with r := r'', allocs := d.allocs.push p, live := { k := k, ptr := p, blk := blk } :: d.live } (toString p)
-      | (r', .err e) => emit { d with r := r' } ("e-" ++ errName e)
+      | (r', .err e) => emit { d with r := r' } ((if d.w then "p-" else "e-") ++ errName e)
       | (r', _) => emit { d with r := r' } "?"
   | ["free", k, off] =>
     match off.toNat?, addrOf d k (off.toNat?.getD 0) with
     | some _, some p =>
-      match d.r.step (.free p) with
+      match (if d.w then (match hostFree d.r p with
+                          | (r', .unit) => (r', Out.ok)
+                          | (r', .panic e) => (r', Out.err e)
+                          | (r', .val q) => (r', Out.ptr q))
+             else d.r.step (.free p)) with
       | (r', .ok) => emit { d with r := r', live := eraseEnt p d.live } "ok"
-      | (r', .err e) => emit { d with r := r' } ("e-" ++ errName e)
+      | (r', .err e) => emit { d with r := r' } ((if d.w then "p-" else "e-") ++ errName e)
       | (r', _) => emit { d with r := r' } "?"
     | _, _ => emit d "bad-op"
   | ["poke", k, off, v] =>
@@ -114,7 +126,8 @@ def opStep (d : DS) (op : String) : DS :=
   | ["setpages", n] =>
     match n.toNat? with
     | none => emit d "bad-op"
-    | some n => emit { d with r := { d.r with m := { d.r.m with pages := n % U32 } } } "s"
+    | some n => if d.w then emit d "bad-op" else
+        emit { d with r := { d.r with m := { d.r.m with pages := n % U32 } } } "s"
   | ["const"] =>
     emit d s!"{NUM_ORDERS} {MIN_ALLOC} {MAX_ALLOC} {PAGE} {MAX_PAGES} {NIL} {HDR}"
   | _ => emit d "bad-op"
@@ -125,19 +138,32 @@ def showFinal (d : DS) : String :=
     if s.heads o = NIL then none else some s!"{o}:{s.heads o}"
   s!"base={s.base} bumper={s.bumper} poisoned={s.poisoned} last={s.lastSize} ba={s.bytesAllocated} peak={s.peak} sum={s.sum} asu={s.addrUsed} pages={d.r.m.pages} heads={",".intercalate hs}"
 
+def runCase (w : Bool) (hb pg mx : Nat) (ops : String) : String :=
+  let d0 : DS := { w := w, hb := hb % U32, r := Run.init hashStore (hb % U32) (pg % U32) (mx % U32),
+                   allocs := #[], live := [], outs := [] }
+  let d := (ops.splitOn ";").foldl (fun d op => if (words op).isEmpty then d else opStep d op) d0
+  let fin := if w then s!"pages={d.r.m.pages}" else showFinal d
+  let out := ";".intercalate d.outs.reverse ++ "|" ++ fin
+  -- known finding: a heap base within 7 bytes of 4 GiB cannot be aligned; the Go code wraps the
+  -- aligned base to 0 and then hands out memory below the real heap base
+  if (hb % U32) + 7 ≥ U32 ∧ d.allocs.size > 0 then
+    out ++ "\tspec=no allocation may succeed: the aligned heap base does not fit 32 bits\tkf=heapbase-wrap"
+  else out
+
+/-- header `heapBase,pages,maxPages` (fake memory, direct calls) or `w,heapBase,pages,maxPages`
+    (real wazero memory, host functions) -/
 def step (line : String) : String :=
   match line.splitOn "|" with
   | [hdr, ops] =>
-    match (hdr.splitOn ",").map String.toNat? with
-    | [some hb, some pg, some mx] =>
-      let d0 : DS := { hb := hb % U32, r := Run.init hashStore (hb % U32) (pg % U32) (mx % U32), allocs := #[], live := [], outs := [] }
-      let d := (ops.splitOn ";").foldl (fun d op => if (words op).isEmpty then d else opStep d op) d0
-      let out := ";".intercalate d.outs.reverse ++ "|" ++ showFinal d
-      -- known finding: a heap base within 7 bytes of 4 GiB cannot be aligned; the Go code wraps the
-      -- aligned base to 0 and then hands out memory below the real heap base
-      if (hb % U32) + 7 ≥ U32 ∧ d.allocs.size > 0 then
-        out ++ "\tspec=no allocation may succeed: the aligned heap base does not fit 32 bits\tkf=heapbase-wrap"
-      else out
+    match hdr.splitOn "," with
+    | [a, b, c] =>
+      match a.toNat?, b.toNat?, c.toNat? with
+      | some hb, some pg, some mx => runCase false hb pg mx ops
+      | _, _, _ => "bad-op"
+    | ["w", a, b, c] =>
+      match a.toNat?, b.toNat?, c.toNat? with
+      | some hb, some pg, some mx => runCase true hb pg mx ops
+      | _, _, _ => "bad-op"
     | _ => "bad-op"
   | _ => "bad-op"
 
